@@ -310,14 +310,18 @@ def run_handover(chk, consts):
                 sys_ops = [f"(SysStart [{'; '.join('true' if a else 'false' for a in autos)}] {drv.env_term(env)})"]
                 w.do(("submit", autos, env))
                 trace = []
-                for act in script:
+                # in some scenarios the completion flag of one stage cannot be persisted (the submitter's copy of the
+                # config went stale, as when cancel-jobs races with the last round): nothing may be handed over then
+                firsts = [i for i, a in enumerate(script) if a[0] == "complete" and not any(b[0] == "complete" and b[1] == a[1] for b in script[:i])]
+                inject_at = rng.choice(firsts) if firsts and rng.random() < 0.25 else None
+                for ai, act in enumerate(script):
                     if act[0] == "complete":
                         if not os.path.exists(os.path.join(w.out, "output-stage%d" % act[1], "cluster_config.json")):
                             continue
                         before = w.read_state()
                         first_completion = ("mark", act[1]) not in w.events
                         try:
-                            out, psn = w.complete_stage(act[1], with_results=act[2])
+                            out, psn = w.complete_stage(act[1], with_results=act[2], fail_mark=(ai == inject_at))
                         except Exception as e:   # the stand-ins could not even set the completion up
                             chk.tie_broken("hand-over: completing stage %d could not be driven (%s)" % (act[1], type(e).__name__),
                                            json.dumps({"scenario": [n, autos, script], "events": list(w.events)}, default=str)[:1500])
@@ -342,6 +346,9 @@ def run_handover(chk, consts):
                                               {"component": "JobSubmitter._handle_completion -> jade pipeline submit-next-stage",
                                                "stages": n, "autos": autos, "script": script, "events": list(w.events),
                                                "final_pipeline_json": st})
+                        if ai == inject_at and any(m[0] == "mark_rejected" for m in getattr(w, "handover_marks", [])):
+                            dist["rejected_mark_complete"] = dist.get("rejected_mark_complete", 0) + 1
+                            break       # the stage stays incomplete; the oracles below judge what was handed over
                         if not isinstance(out, int):
                             chk.tie_broken("hand-over: _handle_completion raised", json.dumps({"scenario": [n, autos, script], "raised": out}))
                             break
